@@ -1206,7 +1206,8 @@ class Engine(object):
                 if isinstance(ty, FoldSpec):
                     obj.val = ty.fresh('%s_%s' % (name, tag))
                     self.assume(obj.val.n >= 0)
-                    self.assume(z3.Or(*[obj.val.last_kind == k for k in ty.kinds]))
+                    if ty.kinds:
+                        self.assume(z3.Or(*[obj.val.last_kind == k for k in ty.kinds]))
                 elif callable(getattr(ty, 'havoc_list', None)):
                     obj.val = ty.havoc_list(self, '%s_%s' % (name, tag))
                 else:
@@ -2034,6 +2035,8 @@ class Engine(object):
             if is_sym(idx) or idx != -1:
                 raise Unsupported('only [-1] of a fold-abstracted list')
             self.oblige('%s.index@%s' % (self.c.funcname, self.rel(node)), fa.n > 0, 'safety')
+            if fa.last is None and not fa.spec.kinds:
+                raise Unsupported('last element of a fold-abstracted list of opaque values before anything was appended')
             if fa.last is None:
                 for k in fa.spec.kinds:
                     if k == fa.spec.kinds[-1] or self.decide(fa.last_kind == k):
@@ -2281,6 +2284,13 @@ class Engine(object):
     def list_append(self, lst, v, et=None):
         if isinstance(lst.val, FoldAbs):
             fa = lst.val
+            if not fa.spec.kinds:
+                # opaque elements: only the length, the last element and the user's folds are tracked
+                nf = dict((k, step(fa.folds, v)) for k, step in fa.spec.folds.items())
+                new = FoldAbs(fa.spec, fa.n + 1, z3.IntVal(0), None, nf)
+                new.last = v
+                lst.val = new
+                return
             if not isinstance(v, tuple) or len(v) not in fa.spec.kinds:
                 raise Unsupported('append of %r to a fold-abstracted list' % (v,))
             nf = dict((k, step(fa.folds, v)) for k, step in fa.spec.folds.items())
